@@ -29,6 +29,9 @@ def get_deterministic_sign_multiplier(data, axis: int):
     max_vals = np.max(data, axis=axis)
     min_vals = np.min(data, axis=axis)
     sign_multiplier = np.where(np.abs(max_vals) >= np.abs(min_vals), 1, -1)
+    # If the maximum is negative, all entries are (equal and) negative: flip them
+    if not np.iscomplexobj(data):
+        sign_multiplier = np.where(max_vals < 0, -1, sign_multiplier)
     return sign_multiplier
 
 
